@@ -12,6 +12,7 @@ import (
 	connmgri "github.com/libp2p/go-libp2p/core/connmgr"
 	"github.com/libp2p/go-libp2p/core/network"
 	"github.com/libp2p/go-libp2p/core/peer"
+	"github.com/libp2p/go-libp2p/core/peerstore"
 	basichost "github.com/libp2p/go-libp2p/p2p/host/basic"
 	rcmgr "github.com/libp2p/go-libp2p/p2p/host/resource-manager"
 	"github.com/libp2p/go-libp2p/p2p/net/connmgr"
@@ -86,6 +87,7 @@ type world struct {
 	connects     int
 	hist         []string
 	ioEnd        *simnet.Conn
+	pendingIO    *pendingIO
 	touched      map[int]bool
 	c2Seen       bool
 	xGater       *onlyRelayed
@@ -178,6 +180,22 @@ func (w *world) setup() bool {
 	w.n.OnConn(func(d, l *simnet.Conn) {
 		if w.dialing != nil {
 			w.dialing.rawConns = append(w.dialing.rawConns, d)
+			if p := w.pendingIO; p != nil && p.cl == w.dialing {
+				// cold client: the fault sits on the connection its request is about to open (handshake, identify, first stream)
+				w.pendingIO = nil
+				end := d
+				if p.k%2 == 0 {
+					end = l
+				}
+				kind := p.kind
+				if kind == simnet.Stall && w.cfg.secu == "insecure" {
+					// the plaintext test transport ignores the upgrade context: a peer that stalls inside its handshake
+					// blocks the inbound upgrade, and with it listener.Close / Host.Close, for ever (outside C11, told to
+					// the lead); the run could not be shut down
+					kind = simnet.Reset
+				}
+				w.armIO(end, kind, 1+3*p.k)
+			}
 		}
 	})
 	cm, err := connmgr.NewConnManager(1000, 2000)
@@ -285,6 +303,12 @@ func (w *world) setup() bool {
 		w.cl = append(w.cl, X)
 	}
 	for _, cl := range w.cl {
+		if c.cold && !cl.relayed {
+			// no warm-up: the client only knows the relay's address; its first request dials, so that the request
+			// meets the relay while identify / the connection manager's Connected notification are still under way
+			cl.nd.PS.AddAddrs(R.nd.ID, []ma.Multiaddr{R.nd.Addr}, peerstore.PermanentAddrTTL)
+			continue
+		}
 		if !w.ensure(cl) {
 			o.Trouble = "initial connection of " + c.name(cl.idx) + " failed"
 			return false
@@ -522,26 +546,59 @@ func (w *world) arm(op opT, src, dst *cli) {
 		if op.ioOnDst && dst != nil {
 			t = dst
 		}
-		if t == nil || len(t.rawConns) == 0 {
+		if t == nil {
+			return
+		}
+		if len(t.rawConns) == 0 || t.rawConns[len(t.rawConns)-1].Stats().Closed {
+			if w.cfg.cold && t == src {
+				w.pendingIO = &pendingIO{cl: t, kind: op.ioKind, k: op.ioK}
+			}
 			return
 		}
 		cn := t.rawConns[len(t.rawConns)-1]
-		if cn.Stats().Closed {
-			return
-		}
 		end := cn
 		if op.ioK%2 == 0 {
 			end = cn.Peer() // the relay's end
 		}
-		target := end.Stats().Calls + (op.ioK+1)/2
-		kind := op.ioKind
-		w.ioEnd = end
-		end.SetOnCall(func(call int, _ bool) {
-			if call == target {
-				end.InjectFault(simnet.Fault{Kind: kind, AtCall: call})
-			}
-		})
+		w.armIO(end, op.ioKind, end.Stats().Calls+(op.ioK+1)/2)
 	}
+}
+
+type pendingIO struct {
+	cl   *cli
+	kind simnet.FaultKind
+	k    int
+}
+
+func (w *world) armIO(end *simnet.Conn, kind simnet.FaultKind, target int) {
+	w.ioEnd = end
+	end.SetOnCall(func(call int, _ bool) {
+		if call == target {
+			end.InjectFault(simnet.Fault{Kind: kind, AtCall: call})
+		}
+	})
+}
+
+// prep gets an actor ready: warm runs (re)connect it and wait for quiescence first; cold runs leave a
+// disconnected client alone, its request dials by itself (first contact inside the request).
+func (w *world) prep(cl *cli) bool {
+	if w.cfg.cold && !cl.relayed && cl.nd.Swarm.Connectedness(w.R.nd.ID) == network.NotConnected {
+		cl.nd.Swarm.Backoff().Clear(w.R.nd.ID)
+		w.o.Probe("cold-first-contact-in-request")
+		return true
+	}
+	return w.ensure(cl)
+}
+
+// ipsFor: the source IP(s) the relay sees (will see, for a client that dials inside its request).
+func (w *world) ipsFor(cl *cli) []string {
+	if ips := w.ipsSeen(cl); len(ips) > 0 {
+		return ips
+	}
+	if ip := net.ParseIP(cl.dialer.LocalIP); ip != nil && !cl.relayed {
+		return []string{ip.String()}
+	}
+	return nil
 }
 
 // disarm removes the fault and reports whether it fired.
@@ -558,6 +615,7 @@ func (w *world) disarm(op opT, firedBefore map[string]int) bool {
 			n += v
 		}
 		fired = n > firedBefore["io"]
+		w.pendingIO = nil
 		if w.ioEnd != nil {
 			w.ioEnd.SetOnCall(nil)
 			w.ioEnd = nil
